@@ -61,6 +61,15 @@ type Config struct {
 	Root              string `json:"root,omitempty"`
 	SessionId         string `json:"session_id,omitempty"`
 	ResetOnEmptyInput bool   `json:"reset_on_empty,omitempty"`
+	// First: the engine gets a first function (engine.WithFirst), run before control goes
+	// to the bytecode whenever an engine object starts serving
+	First *First `json:"first,omitempty"`
+}
+
+// First scripts the engine's first function: a constant answer.
+type First struct {
+	Content string   `json:"content,omitempty"`
+	FlagSet []uint32 `json:"flag_set,omitempty"`
 }
 
 // App is a whole application.
